@@ -156,6 +156,26 @@ def canon(v):
     return v
 
 
+def same(m, i):
+    """Model result m equals implementation result i.  Exact, except that a
+    model float (an exact rational) also matches the float obtained by rounding
+    it correctly (one IEEE operation on exact inputs)."""
+    if m == i:
+        return True
+    if isinstance(m, tuple) and isinstance(i, tuple) and len(m) == len(i):
+        if len(m) == 2 and m[0] == 'float' and i[0] == 'float':
+            if isinstance(m[1], fractions.Fraction) and isinstance(i[1], fractions.Fraction):
+                try:
+                    return fractions.Fraction(float(m[1])) == i[1]
+                except OverflowError:
+                    return False
+            return False
+        return all(same(a, b) for a, b in zip(m, i))
+    if isinstance(m, list) and isinstance(i, list) and len(m) == len(i):
+        return all(same(a, b) for a, b in zip(m, i))
+    return False
+
+
 def run_impl(f, *args):
     """Call an implementation function; ('ok', canon value) | ('raise', class name)."""
     try:
